@@ -5,6 +5,8 @@ import (
 	"bytes"
 	"encoding/json"
 	"fmt"
+	"strconv"
+	"strings"
 
 	"verif/internal/e2e"
 	"verif/internal/perso"
@@ -31,6 +33,13 @@ func applyFault(kind string, genuine, prev []byte) []byte {
 			return g
 		}
 		return []byte{a, b}
+	}
+	if strings.HasPrefix(kind, "data-bit-flipped@") {
+		i, _ := strconv.Atoi(kind[len("data-bit-flipped@"):])
+		if i < len(g)-2 {
+			g[i] ^= 1
+		}
+		return g
 	}
 	switch kind {
 	case "empty":
@@ -115,6 +124,15 @@ func configs(thorough bool) []chipCfg {
 					return max(1, (n+1)/2)
 				}
 			}})
+	// EF.CardAccess with TWO PACEInfos, both repeated in DG14 (the cross-check the library has for the one file that
+	// is always read in the clear); a chip without access control whose security object lists DG15 but no DG14
+	out = append(out,
+		chipCfg{Name: "PACE-GM+CAM-two-infos+DG14", Cfg: func() perso.Config {
+			return perso.Config{PACE: []refchip.PACEProto{{Mapping: 2, Cipher: 2, ParamID: 13}, {Mapping: 6, Cipher: 2, ParamID: 13}}, DGs: []int{2}}
+		}},
+		chipCfg{Name: "no-access-control+AA-only", Cfg: func() perso.Config {
+			return perso.Config{DGs: []int{2}, AA: &perso.AASpec{RSABits: 1024, Trailer: "BC"}}
+		}, Tune: func(chip *refchip.Chip) { chip.NoAccessRules = true }})
 	if thorough {
 		out = append(out,
 			chipCfg{Name: "PACE-GM/le-cap-128-fallback", Cfg: func() perso.Config {
@@ -157,12 +175,17 @@ type caseRec struct {
 }
 
 type result struct {
-	Key, What        string
-	Sig              string
-	Exchanges        int
-	Complete         string // files present + verdicts; compared with the fault-free run when a faulted read reports no failure
-	Failed           bool   // the read returned an error or recorded a failed step
-	UnprotectedFault bool
+	Key, What            string
+	Sig                  string
+	Exchanges            int
+	Complete             string // files present + verdicts; compared with the fault-free run when a faulted read reports no failure
+	Failed               bool   // the read returned an error or recorded a failed step
+	UnprotectedFault     bool
+	FailedSet            string // which steps are recorded as failed (compared with the fault-free run: only a NEW failure counts)
+	CardAccessDiffers    bool   // the returned EF.CardAccess is not the chip's (only possible after a fault on an unprotected exchange)
+	HasDG14              bool
+	AlteredAuthenticated []int       // files covered by the security object returned with other bytes after a clear-text fault
+	PlainResp            map[int]int // fault-free run: exchange index -> response length, for exchanges outside secure messaging
 }
 
 func runCase(cc chipCfg, faults []fault, n int) result {
@@ -194,6 +217,14 @@ func runCase(cc chipCfg, faults []fault, n int) result {
 	}
 	r := e2e.Read(p, e2e.ReadOpts{})
 	res := result{Exchanges: len(chip.Log)}
+	if len(faults) == 0 {
+		res.PlainResp = map[int]int{}
+		for i, ex := range chip.Log {
+			if !ex.Protected {
+				res.PlainResp[i] = len(ex.WireResp)
+			}
+		}
+	}
 	if r.Panic != nil {
 		res.Key, res.What = "panic-escapes-read", fmt.Sprintf("ReadDocument panicked: %v", r.Panic)
 		return res
@@ -218,6 +249,11 @@ func runCase(cc chipCfg, faults []fault, n int) result {
 		switch d {
 		case 0x1C:
 			if unprotectedFault {
+				// EF.CardAccess is read in the clear: the link can alter it unnoticed at the transport level. What the
+				// library CAN notice is a CardAccess that is not contained in an (authenticated) DG14: judged below.
+				if !bytes.Equal(got, p.CardAccess) {
+					res.CardAccessDiffers = true
+				}
 				continue
 			}
 			want = p.CardAccess
@@ -225,6 +261,15 @@ func runCase(cc chipCfg, faults []fault, n int) result {
 			want = p.CardSecurity
 		default:
 			want = p.Files[d]
+		}
+		if !bytes.Equal(got, want) && unprotectedFault {
+			// the fault hit an exchange outside secure messaging (a chip without access control, or the clear-text
+			// prologue): the transport cannot notice. Files covered by the security object must then be caught by
+			// passive authentication (judged against the fault-free run in judgeCase); EF.COM is covered by nothing.
+			if d != 0x1E {
+				res.AlteredAuthenticated = append(res.AlteredAuthenticated, d)
+			}
+			continue
 		}
 		if !bytes.Equal(got, want) {
 			res.Key, res.What = fmt.Sprintf("file-differs/%x", d), fmt.Sprintf("returned file %x (%d bytes) differs from the chip's (%d bytes)", d, len(got), len(want))
@@ -289,17 +334,46 @@ func runCase(cc chipCfg, faults []fault, n int) result {
 	pa := s.PassiveAuthResult != nil && s.PassiveAuthResult.Success
 	res.Complete = fmt.Sprintf("files=%v/bac=%v/pace=%v/cam=%v/ca=%v/aa=%v/pa=%v/trusted=%v/auth=%s", present, bac, pace, cam, ca, aa, pa, sum.DataTrusted, ch)
 	res.Failed = r.Err != nil || s.BacErr != nil || s.PaceErr != nil || s.ChipAuthErr != nil || s.ActiveAuthErr != nil || s.PassiveAuthErr != nil || s.DocumentVerifyErr != nil
+	res.FailedSet = fmt.Sprintf("read=%v,bac=%v,pace=%v,ca=%v,aa=%v,pa=%v,verify=%v", r.Err != nil, s.BacErr != nil, s.PaceErr != nil, s.ChipAuthErr != nil, s.ActiveAuthErr != nil, s.PassiveAuthErr != nil, s.DocumentVerifyErr != nil)
+	res.HasDG14 = e2e.FileBytes(&r.Doc.Document, 14) != nil
 	res.UnprotectedFault = unprotectedFault
 	return res
 }
 
-// judgeCase = runCase + the no-silent-degradation rule against the fault-free result of the same configuration.
-func judgeCase(cc chipCfg, faults []fault, n int, baseComplete string) result {
+// newFailure says whether the faulted run recorded an error or a failed step that the fault-free run of the same
+// configuration does not have (a chip without access control always has a failed BAC step, for instance).
+func newFailure(r, base result) bool {
+	if r.FailedSet == "" {
+		return r.Failed
+	}
+	a, b := strings.Split(r.FailedSet, ","), strings.Split(base.FailedSet, ",")
+	for i := range a {
+		if strings.HasSuffix(a[i], "=true") && (i >= len(b) || !strings.HasSuffix(b[i], "=true")) {
+			return true
+		}
+	}
+	return false
+}
+
+// judgeCase = runCase + the no-silent-degradation rules against the fault-free result of the same configuration.
+func judgeCase(cc chipCfg, faults []fault, n int, base result) result {
 	r := runCase(cc, faults, n)
-	if r.Key == "" && !r.Failed && !r.UnprotectedFault && r.Complete != baseComplete {
+	if r.Key != "" {
+		return r
+	}
+	failed := newFailure(r, base)
+	if !failed && !r.UnprotectedFault && r.Complete != base.Complete {
 		// the statement: a misbehaving exchange ends the read with an error or with that step recorded as failed.
 		// Tolerated faults are fine only if the result is indistinguishable from the fault-free read.
-		r.Key, r.What = "silent-degradation", fmt.Sprintf("no error and no failed step, but the result differs from the fault-free read: %s (fault-free: %s)", r.Complete, baseComplete)
+		r.Key, r.What = "silent-degradation", fmt.Sprintf("no error and no failed step, but the result differs from the fault-free read: %s (fault-free: %s)", r.Complete, base.Complete)
+	}
+	if !failed && len(r.AlteredAuthenticated) > 0 {
+		r.Key, r.What = fmt.Sprintf("altered-file-unnoticed/%x", r.AlteredAuthenticated[0]), fmt.Sprintf("file(s) %x were altered on a clear-text exchange and returned, and neither an error nor a failed step (passive authentication) is recorded", r.AlteredAuthenticated)
+	}
+	if !failed && r.CardAccessDiffers && r.HasDG14 {
+		// a fault on the clear-text EF.CardAccess read: the returned file differs from the chip's although DG14 (which
+		// repeats the chip's SecurityInfos and is covered by the security object) was obtained, and nothing is recorded
+		r.Key, r.What = "altered-cardaccess-unnoticed-although-dg14-obtained", "the returned EF.CardAccess differs from the chip's file; DG14 was read and authenticated, yet no error and no failed step is recorded"
 	}
 	return r
 }
@@ -329,7 +403,16 @@ func run(c *vc.Ctx) {
 			c.Outcome(sec1, "fault-free:"+base.Sig)
 		}
 		for k := 0; k < n; k++ {
-			for _, kind := range faultKinds {
+			kinds := faultKinds
+			if w := base.PlainResp[k]; w > 2 && w <= 130 {
+				// a response that travels in the clear and is small (EF.CardAccess, EF.DIR, ATR/ATS-like): a flip at
+				// EVERY byte position, not only the first
+				kinds = append([]string{}, faultKinds...)
+				for i := 1; i < w-2; i++ {
+					kinds = append(kinds, fmt.Sprintf("data-bit-flipped@%d", i))
+				}
+			}
+			for _, kind := range kinds {
 				if !c.Mine() {
 					continue
 				}
@@ -338,10 +421,10 @@ func run(c *vc.Ctx) {
 					goto d2
 				}
 				fs := []fault{{k, kind}}
-				r := judgeCase(cc, fs, n, base.Complete)
+				r := judgeCase(cc, fs, n, base)
 				if r.Key != "" {
 					rec := caseRec{cc.Name, fs, n}
-					c.Violation(sec1, r.Key, fmt.Sprintf("%s, fault %s at exchange %d of %d: %s", cc.Name, kind, k, n, r.What), rec, func() bool { return judgeCase(cc, fs, n, base.Complete).Key != "" })
+					c.Violation(sec1, r.Key, fmt.Sprintf("%s, fault %s at exchange %d of %d: %s", cc.Name, kind, k, n, r.What), rec, func() bool { return judgeCase(cc, fs, n, base).Key != "" })
 					c.Outcome(sec1, "VIOLATION")
 				} else {
 					c.Outcome(sec1, r.Sig)
@@ -382,11 +465,11 @@ d2:
 				for _, a := range kinds2 {
 					for _, b := range kinds2 {
 						fs := []fault{{k1, a}, {k2, b}}
-						r := judgeCase(small, fs, n, baseSmall.Complete)
+						r := judgeCase(small, fs, n, baseSmall)
 						if r.Key != "" {
 							rec := caseRec{small.Name, fs, n}
 							sm := small
-							c.Violation(sec2, r.Key, fmt.Sprintf("%s, faults %v: %s", small.Name, fs, r.What), rec, func() bool { return judgeCase(sm, fs, n, baseSmall.Complete).Key != "" })
+							c.Violation(sec2, r.Key, fmt.Sprintf("%s, faults %v: %s", small.Name, fs, r.What), rec, func() bool { return judgeCase(sm, fs, n, baseSmall).Key != "" })
 							c.Outcome(sec2, "VIOLATION")
 						} else {
 							c.Outcome(sec2, r.Sig)
@@ -414,7 +497,7 @@ func replay(c *vc.Ctx, raw json.RawMessage) string {
 	refpki.EnsureKeys()
 	for _, cc := range configs(true) {
 		if cc.Name == doc.Case.Config {
-			r := judgeCase(cc, doc.Case.Faults, doc.Case.N, runCase(cc, nil, 400).Complete)
+			r := judgeCase(cc, doc.Case.Faults, doc.Case.N, runCase(cc, nil, 400))
 			if r.Key != "" {
 				c.Violation(doc.Section, r.Key, r.What, doc.Case, nil)
 			}
